@@ -49,6 +49,9 @@ static int root_build (int fi, const Fmt *f, int ch)
 	for (long i = 0 ; i < items ; i++)
 	{	long fr = i / ch ; int c = (int) (i % ch) ;
 		int32_t v = (int32_t) ((((fr * 37 + c * 11) % 8191) - 4095) * 65536 * 3 + (fr % 251) * 65536 + (fr & 0xFF) * 256) ;
+		/* encodings that store every value exactly also get steps of nearly the whole range (delta encodings wrap there): + full scale, - full scale, back */
+		if ((f->width > 0 || f->is_float) && fr % 89 == 40) v = 0x7FFF0000 - (int32_t) (fr & 0xFF) * 65536 ;
+		if ((f->width > 0 || f->is_float) && fr % 89 == 41) v = - 0x7FFF0000 + (int32_t) (fr & 0xFF) * 65536 ;
 		switch (wtype)
 		{	case T_SHORT : ((short *) wbuf) [i] = (short) (v >> 16) ; break ;
 			case T_INT : ((int *) wbuf) [i] = v ; break ;
